@@ -8,7 +8,9 @@
 
    via = "client": the request is made and posted by the ingest client (IndexContent / Register) to the
    endpoint of its kind, where the server reads it with the reader of that kind -- made = read, unaltered;
-   the client reports success exactly when the reader accepted.                                    *)
+   the client reports success exactly when the reader accepted.
+   via = "nested": other requests (of both kinds, with other contents) are made between encoding the request's payload and
+   sealing it -- a request is a value; making one does not touch another that is under way.             *)
 EXTENDS Integers, Sequences, FiniteSets, TLC, VerifIO
 
 CONSTANTS Ids, EXPORT, FIXED
@@ -22,8 +24,9 @@ Seal(kind, named, content, k) ==
 OtherOf(S, x) == CHOOSE y \in S : y # x
 
 Alts == {"none", "payload-content", "payload-named", "key", "sig", "type", "sealed-as-foreign-type"}
-Cases == {x \in [made : Kinds, read : Kinds, named : Ids, key : Ids, alt : Alts, via : {"direct", "client"}] :
-            x.via = "client" => (x.alt = "none" /\ x.made = x.read)}
+Cases == {x \in [made : Kinds, read : Kinds, named : Ids, key : Ids, alt : Alts, via : {"direct", "client", "nested"}] :
+            /\ x.via = "client" => (x.alt = "none" /\ x.made = x.read)
+            /\ x.via = "nested" => x.alt = "none"}
 
 Altered(x) ==
   LET e == Seal(x.made, x.named, "c1", x.key) o == OtherOf(Ids, x.key) IN
